@@ -5,10 +5,87 @@
 package main
 
 import (
+	"bytes"
+	"crypto/sha1"
 	"fmt"
+	"io"
 	"os"
+	"os/exec"
+	"path/filepath"
+	"strings"
 	"time"
+
+	"verifharness/tlcrun"
 )
+
+// superviseCheck runs the check in a child process.  The server under test
+// lives in the same process as the harness, so a panic that go-smtp does not
+// recover from (a goroutine of the library crashing on network input) takes
+// the whole process down: that is not an inconclusive run but the plainest of
+// violations, and it is reported as one, with the crash report as the replay.
+func superviseCheck(id string) {
+	cmd := exec.Command(os.Args[0], os.Args[1:]...)
+	cmd.Env = append(os.Environ(), "VERIF_CHILD=1")
+	var tail bytes.Buffer
+	cmd.Stdout = io.MultiWriter(os.Stdout, &tail)
+	cmd.Stderr = io.MultiWriter(os.Stderr, &tail)
+	err := cmd.Run()
+	if err == nil {
+		os.Exit(0)
+	}
+	code := 2
+	if ee, ok := err.(*exec.ExitError); ok {
+		code = ee.ExitCode()
+	}
+	out := tail.String()
+	crashed := (strings.Contains(out, "\npanic: ") || strings.HasPrefix(out, "panic: ") || strings.Contains(out, "fatal error: ")) && strings.Contains(out, "goroutine ")
+	if code == 1 || !crashed {
+		os.Exit(code)
+	}
+	// whose code crashed: the first frames of the crashing goroutine
+	i := strings.LastIndex(out, "\npanic: ")
+	if i < 0 {
+		i = strings.LastIndex(out, "fatal error: ")
+	}
+	if i < 0 {
+		i = 0
+	}
+	report := out[i:]
+	if len(report) > 20000 {
+		report = report[:20000]
+	}
+	lib := strings.Contains(report, "github.com/emersion/go-smtp.") || strings.Contains(report, "go-smtp/")
+	harnessFirst := false
+	for _, l := range strings.Split(report, "\n") {
+		if strings.HasPrefix(l, "verifharness/") || strings.HasPrefix(l, "main.") {
+			harnessFirst = true
+			break
+		}
+		if strings.HasPrefix(l, "github.com/emersion/go-smtp.") {
+			break
+		}
+	}
+	if !lib || harnessFirst {
+		fmt.Printf("INCONCLUSIVE: the check process crashed in the harness itself\n")
+		os.Exit(2)
+	}
+	sum := sha1.Sum([]byte(firstLine(report)))
+	dir := filepath.Join(tlcrun.VerifDir(), "replay")
+	os.MkdirAll(dir, 0o755)
+	path := filepath.Join(dir, fmt.Sprintf("%s-crash-%x.txt", id, sum[:6]))
+	os.WriteFile(path, []byte(report), 0o644)
+	fmt.Printf("DIVERGENCE crash: the process serving the connections died inside go-smtp while the check of %s was driving it: %s\n", id, firstLine(report))
+	fmt.Printf("VIOLATION property=%s replay=%s\n", id, path)
+	os.Exit(1)
+}
+
+func firstLine(s string) string {
+	s = strings.TrimLeft(s, "\n")
+	if i := strings.IndexByte(s, '\n'); i >= 0 {
+		return s[:i]
+	}
+	return s
+}
 
 type checkFn func(tier string)
 
@@ -35,6 +112,9 @@ func main() {
 		if !ok {
 			fmt.Printf("no check for %s\n", id)
 			os.Exit(2)
+		}
+		if os.Getenv("VERIF_CHILD") == "" {
+			superviseCheck(id)
 		}
 		// watchdog: a check that runs far beyond its budget is inconclusive,
 		// never silently stuck
